@@ -1,6 +1,7 @@
 """C15 — ill-formed programs are rejected at compile time, never miscompiled.
 
-Coq model Check/CheckModel.v (check / invoke), theorems Props/C15.v.  Tie: well-formed generated programs and
+Coq model Check/CheckModel.v (check / invoke) under Check/AttrPaths.v (sp_check / sp_invoke: the same stages on a text whose
+attributes are spelled — path and argument form — at every position), theorems Props/C15.v.  Tie: well-formed generated programs and
 single-violation mutants, under the four macro kinds, through the real front end in-process (FRONT: `ascent_impl`),
 compared with (a) the class the injected violation has by construction (python oracle) and (b) the model's verdict
 evaluated inside Coq; a sample through real rustc (generated crates) for "reported at the program" and for the
@@ -13,6 +14,7 @@ import re
 from .. import c15_ast as A
 from .. import c15_gen as G
 from .. import c15_ctx as C
+from .. import c15_attrs as SP
 from .. import lib, prog
 
 PROP = "C15"
@@ -23,12 +25,14 @@ PROP_FILE = "Props/C15.v"
 PAREN_OVERRIDE = os.environ.get("C15_PATTERN_PAREN", "").strip().lower()
 if PAREN_OVERRIDE not in ("", "true", "false"):
     raise lib.Infra("C15_PATTERN_PAREN must be true or false")
-PRELUDE = ("From Coq Require Import List.\nFrom AV Require Import Check.CheckModel.\nFrom AV Require Import Check.PatCtxModel.\nImport ListNotations.\n"
+PRELUDE = ("From Coq Require Import List.\nFrom AV Require Import Check.CheckModel.\nFrom AV Require Import Check.PatCtxModel.\n"
+           "From AV Require Import Check.AttrPaths.\nImport ListNotations.\n"
            "Definition c15_pp : bool := %s.\n"
            "Definition pvi (p : xpat ident) : list ident := xpat_vars ident_eqb c15_pp p.\n"
            "Definition pvn (p : xpat nat) : list nat := xpat_vars Nat.eqb c15_pp p.\n"
            "Definition c15_late : counters := map (fun i => (Base i, 3)) (seq 0 60).\n"
-           "Definition c15_run (T : text) := let P := parse_text T in (map (fun k => (invoke [] P k, check [] P k, check c15_late P k)) [KAscent; KAscentPar; KAscentRun; KAscentRunPar], offenders [] P).\n"
+           # the text with its attributes as they are SPELLED (Check/AttrPaths.v): path + argument form, at every position
+           "Definition c15_run (T : stext) := (map (fun k => (sp_invoke [] T k, sp_check [] T k, sp_check c15_late T k)) [KAscent; KAscentPar; KAscentRun; KAscentRunPar], offenders [] (sp_program T)).\n"
            % (PAREN_OVERRIDE or "pattern_get_vars_traverses_paren"))
 KNOWN_PAREN = "paren_pattern_escapes_shadow_check"
 CORPUS = os.path.join(lib.VERIF, "corpus", "C15.jsonl")
@@ -42,7 +46,9 @@ MSG_CLASSES = [
     (r"^recursively defined Ascent macro$", "recursive_macro"),
     (r"^undefined macro$", "undefined_macro"),
     (r"^expected more arguments$|^unexpected token$", "macro_args"),
-    (r"^expected ", "syntax"),
+    (r"^unexpected token in attribute$", "flag_args"),
+    (r"^expected attribute arguments in parentheses: `ds\(\.\.\.\)`$|^expected `\(`$", "ds_not_list"),
+    (r"^expected |^unexpected end of input, expected ", "syntax"),
     (r"^unexpected attribute\(s\)$", "unexpected_attr"),
     (r"^unrecognized attribute\.", "unknown_attr"),
     (r"^attribute only allowed in parallel Ascent$", "irp_serial"),
@@ -50,7 +56,10 @@ MSG_CLASSES = [
     (r"^`lattice`s cannot have custom data structure providers$", "ds_on_lattice"),
     (r"empty lattice is not allowed$", "empty_lattice"),
     (r"`ascent_source`s cannot contain `include_source!`", "include_in_source"),
-    (r"^cannot find attribute `c15_unknown_attr` in this scope", "rustc_unknown_rel_attr"),
+    # rustc on an attribute the macro handed to the generated struct / struct field: a single identifier it does not know,
+    # a path whose first segment is no module or crate, a path into the crate `ascent` that names nothing
+    (r"^cannot find attribute `\w+` in this scope", "rustc_unknown_rel_attr"),
+    (r"^cannot find (module or crate )?`\w+` in (this scope|the crate root|`\w+`)|^failed to resolve", "rustc_unknown_rel_attr"),
     (r"^proc macro panicked", "panic"),
 ]
 MODEL_CLASS = {
@@ -59,6 +68,8 @@ MODEL_CLASS = {
     "ERecursiveMacro": "recursive_macro", "EUndeclared": "undeclared", "EArity": "arity", "EShadow": "shadow", "EAggVar": "agg_unbound",
     "EUnknownAttr": "unknown_attr", "EInterRuleSerial": "irp_serial", "EMultipleDsProg": "multiple_ds",
     "EMultipleDs": "multiple_ds", "EDsOnLattice": "ds_on_lattice", "ENotStratified": "not_stratified",
+    # Check/AttrPaths.v serr: the argument form of a recognised attribute
+    "SFlagArgs": "flag_args", "SDsNotList": "ds_not_list", "SDsContents": "syntax",
 }
 
 
@@ -99,14 +110,17 @@ def ident_name(t, rev):
 
 
 def model_verdict(v, N):
-    if v == "Accept":
+    if v in ("Accept", "SAccept"):
         return ["ok"]
-    if v == "Deferred":
+    if v in ("Deferred", "SDeferred"):
         return ["deferred"]
-    if v == "Panics":
+    if v in ("Panics", "SPanics"):
         return ["panic"]
-    assert v[0] == "Reject", v
+    assert v[0] in ("Reject", "SReject"), v
     e = v[1]
+    if v[0] == "SReject" and not isinstance(e, str):
+        assert e[0] == "SBase", v
+        e = e[1]
     name = e if isinstance(e, str) else e[0]
     cls = MODEL_CLASS[name]
     relname = {i: n for n, i in N.rel.d.items()}
@@ -165,6 +179,10 @@ def spec_for(case, kind, level):
             return {"deferred"}
         if early and len(exps) <= 1:
             return {early}
+    if any(e.get("any_of") for e in exps):
+        # a construct the property does not speak about (a KNOWN flag repeated with arguments): nothing is demanded,
+        # the implementation is compared with the model only
+        return set(x for e in exps for x in (e.get("any_of") or [G.expected_for_kind(e, kind)]))
     want = set(G.expected_for_kind(e, kind) for e in exps)
     errs = set(w for w in want if w != "ok")
     return errs if errs else {"ok"}
@@ -259,7 +277,59 @@ def gen_cases(tier, seed):
                 cases.append(dict(id="b%dc%d" % (b, ki), program=mp, expect=[exp], mutation="capture", info=info, only_kind=kind))
     STATS["skipped_bases"] = skipped
     cases += ctx_cases(tier, seed, [c for c in cases if c["mutation"] == "none"])
+    cases += attr_cases(tier, seed, [c for c in cases if c["mutation"] == "none"])
     return cases
+
+
+def attr_cases(tier, seed, bases):
+    """the systematic family 'the SPELLING of an attribute' (gen/c15_attrs.py): every attribute position of the model x every
+    path form (identifier, 2-3 segments, leading `::`) x made-up name / each recognised name as last segment x every argument
+    form; the recognised names themselves in every argument form; hosts rotate over the generated well-formed programs.
+    A few of them go through rustc on every run (rustc_always): a path attribute at the program, on a relation, on the
+    signature, on a rule, and `ds` written with another delimiter (which must compile)"""
+    rng = lib.rng_for(seed, PROP, "attrs")
+    if not bases:
+        return []
+    plan = SP.plan(rng, tier)
+    out = []
+    start = rng.randrange(len(bases))
+    want_rustc = dict(prog_path=1, prog_args=1, rel_path=1, sig_path=1, rule_path=1, ds_delim=1)
+    for i, (pos, attr) in enumerate(plan):
+        for t in range(len(bases)):
+            base = bases[(start + i + t) % len(bases)]
+            if pos in ("include", "src_rel", "src_rule") and base["program"].get("sources"):
+                continue              # one include_source! per program keeps the invocation levels of the oracle simple
+            try:
+                mp, exp = SP.inject(rng, base["program"], pos, attr)
+                A.rust_text(mp)
+                A.coq_program(mp)
+            except (SP.NoSite, IndexError):
+                continue
+            c = dict(id="a%d" % i, program=mp, expect=[exp], mutation="sp_" + pos, info=base["info"])
+            # the rustc sample of this family
+            sp = exp["spelling"]
+            key = None
+            if base["info"]["rustc_ok"] and not base["program"].get("sources"):
+                if pos == "prog" and exp["cls"] == "unknown_attr":
+                    key = "prog_path" if sp["path"] != "ident" else ("prog_args" if sp["args"] != "none" else None)
+                elif pos in ("rel", "lat") and exp["cls"] == "rustc_unknown_rel_attr" and sp["path"] != "ident":
+                    key = "rel_path"
+                elif pos == "sig" and sp["path"] != "ident":
+                    key = "sig_path"
+                elif pos == "rule" and sp["path"] != "ident":
+                    key = "rule_path"
+                elif pos == "rel" and exp["cls"] == "ok" and sp["args"] in ("[", "{"):
+                    key = "ds_delim"
+            if key and want_rustc.get(key):
+                want_rustc[key] -= 1
+                c["rustc_always"] = True
+            out.append(c)
+            break
+    for j in range(6 if tier == "quick" else 60):
+        base = bases[(start + j) % len(bases)]
+        mp, exp = SP.shadowed_flag(rng, base["program"])
+        out.append(dict(id="af%d" % j, program=mp, expect=[exp], mutation="sp_flag_twice", info=base["info"]))
+    return out
 
 
 def ctx_cases(tier, seed, bases):
@@ -354,7 +424,7 @@ def rustc_job(jid, p, kind):
     src = A.rust_source_defs(q)
     if src:
         lines += src.split("\n")
-    body = [A.PATTR_TEXT[a] for a in q["attrs"]] + A.sig_lines(q, "C15Prog")
+    body = [A.pattr_text(a) for a in q["attrs"]] + A.sig_lines(q, "C15Prog")
     if kind in ("ascent", "ascent_par"):
         lines.append("ascent::%s! {" % kind)
         lines += body + [A.rust_item_line(i) for i in q["items"]]
@@ -551,11 +621,13 @@ def tie(tier, seed, replay):
         rule="FRONT: every generated program and mutant under each of ascent / ascent_par / ascent_run / ascent_run_par through the real "
              "ascent_impl in-process (programs with include_source! additionally as the spliced text the re-invocation sees); "
              "non-trivial = the front end did not answer ok; distinct = distinct (verdict class, program, macro kind). "
+             "Family gen/c15_attrs.py: an attribute as data (1-3 path segments, leading ::, none / (..) / [..] / {..} / = value) at each of the 9 attribute "
+             "positions, made-up names and each recognised name behind a prefix, the recognised names in every argument form. "
              "rustc: generated crates compiled against /repo, error messages and line numbers of the diagnostics",
         samples=samples,
         distribution=dict(front_by_mutation=dist, front_cases=nfront, rustc_jobs=rdist,
                           programs=len(cases), decorations=_deco_hist(cases), skipped_bases=STATS.get("skipped_bases", 0),
-                          attribute_positions=_attr_hist(cases), rebinding_patterns=_shadow_hist(cases),
+                          attribute_positions=_attr_hist(cases), attribute_spellings=_sp_hist(cases), rebinding_patterns=_shadow_hist(cases),
                           rebinding_contexts=_ctx_hist(cases),
                           pattern_get_vars_traverses_paren=(PAREN_OVERRIDE or "CheckModel.pattern_get_vars_traverses_paren")),
         mismatches=mism,
@@ -567,7 +639,13 @@ def tie(tier, seed, replay):
                      "expressions are opaque to the model: only 'is a plain identifier' and the free variables of an argument matter",
                      "macro bodies mention only their parameters (macro-local variables: C08); no disjunctions (C07)",
                      "generated identifiers of the reserved name space (__1, __arg_pattern_, __x_) are not used by programs",
-                     "unknown attributes on a relation are rejected by rustc, not by the macro (checked on the sampled crates only)",
+                     "unknown attributes on a relation or on the struct signature — in any spelling, incl. `ascent::ds(..)` / `::ds(..)` — are handed to the "
+                     "generated struct and rejected by rustc, not by the macro (checked on the sampled crates only: one path attribute on a relation and one "
+                     "on the signature per run)",
+                     "attributes are modelled as spelled (Check/AttrPaths.v: leading `::`, segments, argument form none / list / = value); of the tokens of a "
+                     "list only 'parse as a provider path' matters, and only for `ds`: the generated token lists of `ds` come from the fixed menu "
+                     "gen/c15_ast.py DS_TOKENS; #![flag] followed by #![flag(args)] (accepted by the code: only the first attribute of a flag's name is examined) "
+                     "is outside the property's list: compared with the model only",
                      "patterns: every arm of pattern_get_vars that recurses is generated as a context of the variable (identifier in its four binding modes, "
                      "w @ p, (p), &p, tuples, slices, tuple structs, structs incl. shorthand fields and `..`, or-patterns whose alternatives bind the same "
                      "variables) except the type ascription p : T, which no pattern position of the macros can parse; the variables a binder reports are "
@@ -586,6 +664,21 @@ def _attr_hist(cases):
             if e["cls"] == "unexpected_attr" and "first" in e:
                 k = "%s:%s:%s" % (e["on"], "first" if e["first"] else "later", "sig" if e["sig"] else "nosig")
                 h[k] = h.get(k, 0) + 1
+    return h
+
+
+def _sp_hist(cases):
+    """the spelling family: position x path form x last segment (made-up / a recognised name) -> demanded class; argument forms"""
+    h = dict(by_position_path={}, by_args={}, by_class={})
+    for c in cases:
+        for e in c["expect"]:
+            sp = e.get("spelling")
+            if sp:
+                k = "%s:%s:%s" % (e.get("position"), sp["path"], sp["last"])
+                h["by_position_path"][k] = h["by_position_path"].get(k, 0) + 1
+                h["by_args"][sp["args"]] = h["by_args"].get(sp["args"], 0) + 1
+                k = "%s:%s" % (e.get("position"), e["cls"])
+                h["by_class"][k] = h["by_class"].get(k, 0) + 1
     return h
 
 
